@@ -227,6 +227,13 @@ class Codec:
         checksum_passed = False
         if trailer_end != -1:
             parsed_length = frame_end
+            # bytes between the BodyLength field and the CheckSum field
+            body_length = next_msg - len(msg[0]) - len(msg[1]) - len(msg[-1]) - 3
+            if int(value) > body_length:
+                # the frame ends (CheckSum field) before its BodyLength is used up:
+                #   a truncated frame, or a field garbled into an early "10="
+                assert silent, "BodyLength exceeds the frame"
+                return (None, frame_end, None)
         else:
             parsed_length += msg_length
 
